@@ -129,7 +129,17 @@ pub fn execute(w: &Work) -> String {
             let mp = MultiPoint::new(pts.iter().map(|p| Point::new(p.0 as f64, p.1 as f64)).collect());
             let k = (1 + (*k as usize % 5)).min(pts.len().saturating_sub(1)).max(1);
             let det = mp.prepared_detector();
-            format!("{:?}|{:?}", mp.outliers(k), det.outliers(k))
+            // history independence of a reused detector: after runs with other neighbourhood sizes (wider and
+            // narrower) it answers like a fresh one
+            let n = pts.len().saturating_sub(1).max(1);
+            let hist: Vec<usize> = [k + 3, 1, k + 1, k].iter().map(|q| (*q).min(n).max(1)).collect();
+            let mut same = true;
+            let mut last = vec![];
+            for q in &hist {
+                last = det.outliers(*q);
+                same &= format!("{:?}", last) == format!("{:?}", mp.prepared_detector().outliers(*q));
+            }
+            format!("{:?}|{:?}|{}", mp.outliers(k), last, if same { "same-as-fresh" } else { "DIFFERS-from-fresh" })
         }
         Work::Prepared { p, partners, order } => {
             use geo::relate::PreparedGeometry;
@@ -294,6 +304,9 @@ impl Property for C20 {
                 return;
             }
         };
+        if name == "Outliers" {
+            obs.expect(first.ends_with("|same-as-fresh"), "Outliers|history-dependent", || format!("reused PreparedDetector vs fresh ones: {first}; work {:?}", Self::show(c)));
+        }
         if name == "Prepared" {
             obs.expect(first.ends_with("|same-as-fresh"), "Prepared|history-dependent", || format!("reused prepared geometry vs fresh ones: {first}; work {:?}", Self::show(c)));
         }
